@@ -527,7 +527,11 @@ def native_replay(h, replay_path, features, timeout=1500, miri=False):
 def main():
     ap = argparse.ArgumentParser()
     ap.add_argument("prop")
-    ap.add_argument("--tier", default=os.environ.get("VERIF_TIER", "quick"), choices=["quick", "thorough"])
+    ap.add_argument("--tier", default=os.environ.get("VERIF_TIER", "quick"), choices=["quick", "thorough", "probe"],
+                    help="quick: harnesses of tier quick; thorough: quick + thorough; probe: only the harnesses of tier "
+                         "probe (kept in the source with their measured cost, never run by a registered command)")
+    ap.add_argument("--skip-quick", action="store_true", help="with --tier thorough: leave the quick harnesses out")
+    ap.add_argument("--status-out", default=None, help="write {harness: [status, wall_s, reason]} as JSON to this file")
     ap.add_argument("--only", default=None, help="regular expression (re.search) on harness names")
     ap.add_argument("--replay", default=None, help="replay a recorded counterexample file natively")
     ap.add_argument("--jobs", type=int, default=int(os.environ.get("ZV_JOBS", str(min(NCPU, 14)))))
@@ -563,6 +567,10 @@ def main():
     hs = [h for h in reg.values() if h["prop"] == prop]
     if a.tier == "quick":
         hs = [h for h in hs if h["tier"] == "quick"]
+    elif a.tier == "thorough":
+        hs = [h for h in hs if h["tier"] == "thorough" or (h["tier"] == "quick" and not a.skip_quick)]
+    else:
+        hs = [h for h in hs if h["tier"] == "probe"]
     # a twin harness runs only while its finding is listed as open
     hs = [h for h in hs if not ("twin" in h["flags"] and h["kf"] not in open_kf)]
     if a.only:
@@ -596,7 +604,7 @@ def main():
         log("harnesses missing after codegen: " + ", ".join(missing))
         return 2
 
-    caps = CAPS[a.tier]
+    caps = CAPS["thorough" if a.tier == "probe" else a.tier]
     stop = threading.Event()
     wd = threading.Thread(target=mem_watchdog, args=(stop,), daemon=True)
     wd.start()
@@ -694,6 +702,9 @@ def main():
     inconclusive = [h for h in hs if results[h["name"]]["status"] == "inconclusive"]
     wall = time.time() - t_start
 
+    if a.status_out:
+        json.dump({h["name"]: [results[h["name"]]["status"], round(results[h["name"]]["wall_s"]), results[h["name"]]["reason"][:160]]
+                   for h in hs}, open(a.status_out, "w"), indent=1)
     if not a.no_evidence:
         write_evidence(prop, a.tier, seed, hs, results, arts, discharged, inconclusive, violations, unconfirmed,
                        kf_lines, replays, build_s, wall, features, caps)
